@@ -153,15 +153,20 @@ def run(tier, rep):
     bundle = de.real_bundle()
     pool = [pl for _, _, pl, _ in gen_messages.corpus(bundle, "c08", per_ident=1)]
     corp = de.Corpus(rep, bundle)
-    frames = [frame_of(p) for p in (pool[:3] + [bytes([0x3E, 0xD0]) + bytes(4)])]
+    frames = [frame_of(p) for p in (pool[:3] + [bytes([0x3E, 0xD0]) + bytes(4), b"", b"\x3e", bytes([0x3E, 0xD0])])]   # incl. the 6-, 7- and 8-byte frames
     big = frame_of(bytes([0x7D, 0x00]) + bytes(rnd.randrange(256) for _ in range(1021)))   # 1029-byte frame, unknown type 2000
     nrej = 0
+
+    from .. import stream_corpus
+
+    von, _voff = stream_corpus.validate_values()      # every exported flag combination that has the checksum bit
 
     def must_reject(fr, pattern_desc, judge=False):
         nonlocal nrej
         rep.case(digest(["dmg", fr.hex()]))
+        vv = von[len(fr) % len(von)] if len(pattern_desc) % 2 else von[0]
         try:
-            RTCMReader.parse(fr, validate=1)
+            RTCMReader.parse(fr, validate=vv)
             out = "accepted"
         except RTCMParseError:
             out = None
@@ -171,7 +176,7 @@ def run(tier, rep):
             nrej += 1
             rep.reject("DamageNotRejected", {"engine": "crc", "pattern": pattern_desc.split(":")[0]}, {"frame_hex": fr.hex(), "pattern": pattern_desc, "outcome": out})
         if judge:
-            corp.add(None, 1, via="parse", frame=fr, validate=1, lbl=False, ident="damaged", kind=pattern_desc)
+            corp.add(None, 1, via="parse", frame=fr, validate=vv, lbl=False, ident="damaged", kind=pattern_desc)
 
     def flip(fr, bits):
         b = bytearray(fr)
